@@ -54,7 +54,9 @@ Read(r) ==
          c1 == IF k \in Base THEN Fill(c0, k, r)
                ELSE IF c0["request"] # <<Nil, Nil, Nil>> THEN c0
                ELSE LET c2 == Fill(Fill(Fill(c0, "get", r), "post", r), "cookie", r)
-                    IN [c2 EXCEPT !["request"] = <<c2["get"], c2["post"], c2["cookie"]>>]
+                    \* $_POST is filled from Request.Form, which also carries the query parameters and is
+                    \* merged over $_GET: the query key of $_REQUEST comes from the cached $_POST owner
+                    IN [c2 EXCEPT !["request"] = <<c2["post"], c2["post"], c2["cookie"]>>]
          owners == IF k \in Base THEN <<c1[k]>> ELSE c1["request"]
          mine == IF k \in Base THEN <<r>> ELSE <<r, r, r>>
      IN /\ cache' = [cache EXCEPT ![C(r)] = c1]
@@ -75,6 +77,8 @@ St  == [prog |-> prog, pc |-> pc, ip |-> ip, cache |-> cache["proc"]]
 St1 == [prog |-> prog', pc |-> pc', ip |-> ip', cache |-> cache'["proc"]]
 EmitEdge == Emit => PrintT(<<"EDGE", ToJson([from |-> St, act |-> act', to |-> St1])>>)
 View == <<prog, pc, ip, cache>>
+
+TypeOK == \A r \in Reqs : ip[r] \in 0..NReads
 
 \* ---- the property on the mechanism: every read returns the reading request's own data
 OwnDataOnly == \A r \in Reqs : \A i \in 1..Len(seen[r]) : \A j \in 1..Len(seen[r][i]) : seen[r][i][j] = r
